@@ -228,7 +228,7 @@ PLANS = {
         "thorough": [
             dict(name="decorated", consts=consts(alphabet=DECORATED, steps=7, commits=2, uid=5, lines=3),
                  invariants=G_ALL, budget=2500, variants=RENDERS, timeout=2400),
-            dict(name="split", consts=consts(alphabet=("edit", "ckpt", "commit_all", "split"), steps=7, commits=2,
+            dict(name="split", consts=consts(alphabet=("edit_ins", "edit_del", "ckpt", "commit_all", "split"), steps=7, commits=2,
                                              uid=6, lines=5, sessions=("S1", "S2")),
                  invariants=G_ALL, budget=900, variants=RENDERS, per_tag=2, timeout=2400,
                  require_tag=["ck>ck:ai>ai:same:samefiles:edit"]),
